@@ -1,5 +1,6 @@
 #include "eval.h"
 #include "../../../../common/debug.h"
+#include "../../managers/types/enums.h"
 #include <stdexcept>
 
 // デバッグ言語設定（外部変数）
@@ -163,8 +164,11 @@ TypedValue evaluate_variable_typed(const ASTNode *node,
                           InferredType(TYPE_STRUCT, var->struct_type_name));
     } else if (var->is_enum) {
         // v0.13.4: enum型変数の評価
-        if (var->has_associated_value) {
+        if (var->has_associated_value ||
+            interpreter.get_enum_manager()->has_associated_values(
+                var->enum_type_name)) {
             // 関連値を持つenum（Rust風）は構造体として扱う
+            // (unit variants such as E::A / None included)
             return TypedValue(*var,
                               InferredType(TYPE_ENUM, var->enum_type_name));
         } else {
